@@ -1,4 +1,730 @@
-//! C05 — not built yet.
+//! C05 — secure truncation stays within its documented error.
+//!
+//! Tie of Model/Trunc.v with mpc_truncate.rs: a one-`Truncate` graph is compiled with
+//! `prepare_for_mpc_evaluation` (simple inlining), the fully inlined main graph is evaluated NODE BY
+//! NODE here with `SimpleEvaluator::evaluate_node`, so every intermediate value is seen — the three
+//! input shares of the protocol and every PRF value it draws (its masks).  The model, fed with the
+//! recorded shares and masks, must reproduce the three output shares element by element.
+//!
+//! How the protocol's nodes are found in the inlined graph (no names survive inlining, so this is by
+//! structure; every structural expectation is checked and a mismatch is reported as a violation of
+//! class `structure-*`, never silently skipped):
+//!  * TruncateMPC2K (scale = 2^k): `r` (mpc_truncate.rs:306) is the only PRF node of the graph whose
+//!    key dependency is *directly* a `Random` node (the PRFTruncate key of mpc_compiler.rs:834; all
+//!    other keys reach their PRF through NOP/CreateTuple/TupleGet).  The PRF nodes after `r` in node
+//!    order are then exactly r0, r_msb0, r_truncated0, y0 (key = TupleGet(0) of the key triple,
+//!    :338 three times and :352) and y2 (key = TupleGet(2), :353), in this order — the order of the
+//!    `g.prf` calls in `instantiate`; the key index of each is checked.  The node just before `r` is
+//!    `x2 = input_node.tuple_get(2)` (:303); its dependency is the shared input tuple, whose value is
+//!    the triple of input shares.  The protocol output is the first CreateTuple after y2 whose
+//!    dependencies are (y0, _, y2) (:445).  The protocol's seven messages are the NOP nodes annotated
+//!    Send between `r` and that tuple; their sender/receiver pattern is checked against :342-:428.
+//!    (The output shares do not depend on r0, r_msb0, r_truncated0 — they cancel — so the messages are
+//!    compared too: kind `trunc2k_msgs`.)
+//!  * TruncateMPC (other scales): its only PRF (:105) is the last PRF node of the graph (input sharing
+//!    comes earlier, revealing uses none); the node right after it is `input_node.tuple_get(0)` (:109)
+//!    whose dependency is the shared input tuple; the output is the first CreateTuple after it whose
+//!    last dependency is that PRF node (:124).
+//! Limitation: global (single evaluator) execution only; the three-party executor belongs to C02.
+use crate::coqfmt::*;
+use crate::gen::*;
 use crate::out::Out;
-pub const HEADER: &str = "From CC Require Import Base.Prelude.";
-pub fn run(_tier: &str, _seed: u64, _out: &mut Out) {}
+use crate::rng::Rng;
+use ciphercore_base::data_types::*;
+use ciphercore_base::data_values::Value;
+use ciphercore_base::errors::Result;
+use ciphercore_base::evaluators::simple_evaluator::SimpleEvaluator;
+use ciphercore_base::evaluators::Evaluator;
+use ciphercore_base::graphs::util::simple_context;
+use ciphercore_base::graphs::{Context, Node, NodeAnnotation, Operation};
+use ciphercore_base::inline::inline_ops::{InlineConfig, InlineMode};
+use ciphercore_base::mpc::mpc_compiler::{prepare_for_mpc_evaluation, IOStatus};
+use serde_json::json;
+
+pub const HEADER: &str = "From CC Require Import Base.Prelude Model.Trunc.";
+
+const INT_ST: [ScalarType; 10] = [UINT8, INT8, UINT16, INT16, UINT32, INT32, UINT64, INT64, UINT128, INT128];
+
+fn mask(w: u32) -> u128 {
+    if w == 128 { u128::MAX } else { (1u128 << w) - 1 }
+}
+/// two's complement reading of a w-bit pattern, as i128 (w = 128 unsigned values above i128::MAX are
+/// handled by the callers, which never ask for it)
+fn sval(w: u32, signed: bool, x: u128) -> i128 {
+    let x = x & mask(w);
+    if signed && w < 128 && (x >> (w - 1)) & 1 == 1 {
+        (x as i128) - (1i128 << w)
+    } else {
+        x as i128 // for w = 128 signed this cast is the two's complement reading
+    }
+}
+fn elems(v: &Value, t: &Type) -> Result<Vec<u128>> {
+    let st = t.get_scalar_type();
+    let w = width(st);
+    let raw = if t.is_scalar() { vec![v.to_u128(st)?] } else { v.to_flattened_array_u128(t.clone())? };
+    Ok(raw.into_iter().map(|x| x & mask(w)).collect())
+}
+fn value_of(xs: &[u128], t: &Type) -> Result<Value> {
+    let st = t.get_scalar_type();
+    if t.is_scalar() { Value::from_scalar(xs[0], st) } else { Value::from_flattened_array(xs, st) }
+}
+fn owner_name(s: &IOStatus) -> String {
+    match s {
+        IOStatus::Party(i) => format!("P{}", i),
+        IOStatus::Shared => "Shared".into(),
+        IOStatus::Public => "Public".into(),
+    }
+}
+
+struct Run {
+    nodes: Vec<Node>,
+    vals: Vec<Value>,
+}
+
+fn compile(t: &Type, scale: u128, owner: &IOStatus, outs: &[IOStatus]) -> Result<Context> {
+    let t2 = t.clone();
+    let c = simple_context(|g| {
+        let i = g.input(t2)?;
+        g.truncate(i, scale)
+    })?;
+    let cfg = InlineConfig { default_mode: InlineMode::Simple, ..Default::default() };
+    Ok(prepare_for_mpc_evaluation(&c, vec![vec![owner.clone()]], vec![outs.to_vec()], cfg)?.get_context())
+}
+
+/// instrumented evaluation: every node of the (fully inlined) main graph through evaluate_node
+fn eval_all(ctx: &Context, inputs: Vec<Value>, seed: [u8; 16]) -> Result<Run> {
+    let g = ctx.get_main_graph()?;
+    let mut ev = SimpleEvaluator::new(Some(seed))?;
+    ev.preprocess(ctx)?;
+    let nodes = g.get_nodes();
+    let mut vals: Vec<Value> = vec![];
+    let mut input_id = 0;
+    for node in nodes.iter() {
+        let deps: Vec<Value> = node.get_node_dependencies().iter().map(|d| vals[d.get_id() as usize].clone()).collect();
+        let v = match node.get_operation() {
+            Operation::Input(_) => {
+                input_id += 1;
+                inputs[input_id - 1].clone()
+            }
+            Operation::Call | Operation::Iterate => {
+                panic!("main graph is not fully inlined");
+            }
+            _ => ev.evaluate_node(node.clone(), deps)?,
+        };
+        vals.push(v);
+    }
+    Ok(Run { nodes, vals })
+}
+
+/// `observe` for closures capturing graph handles (interior mutability: assert unwind safety; a
+/// panicking evaluation is only ever reported, its context never reused)
+fn observe_u<T, F: FnOnce() -> Result<T>>(f: F) -> Outcome<T> {
+    match std::panic::catch_unwind(std::panic::AssertUnwindSafe(f)) {
+        Ok(Ok(x)) => Outcome::Ok(x),
+        Ok(Err(_)) => Outcome::Err,
+        Err(_) => Outcome::Panic,
+    }
+}
+
+fn is_prf(n: &Node) -> bool {
+    matches!(n.get_operation(), Operation::PRF(_, _))
+}
+/// index i when the key of PRF node n is TupleGet(i) of something
+fn key_index(n: &Node) -> Option<u64> {
+    match n.get_node_dependencies()[0].get_operation() {
+        Operation::TupleGet(i) => Some(i),
+        _ => None,
+    }
+}
+
+struct Found2K {
+    input_tuple: usize,
+    masks: [usize; 6], // r, r0, r_msb0, r_truncated0, y0, y2
+    msgs: Vec<usize>,  // the seven Send-annotated NOP nodes of the protocol, in node order
+    output: usize,
+}
+fn find_2k(run: &Run) -> std::result::Result<Found2K, String> {
+    let n = &run.nodes;
+    let rs: Vec<usize> = (0..n.len())
+        .filter(|&i| is_prf(&n[i]) && matches!(n[i].get_node_dependencies()[0].get_operation(), Operation::Random(_)))
+        .collect();
+    if rs.len() != 1 {
+        return Err(format!("{} PRF nodes keyed directly by a Random node, expected 1", rs.len()));
+    }
+    let r = rs[0];
+    let later: Vec<usize> = (r + 1..n.len()).filter(|&i| is_prf(&n[i])).collect();
+    if later.len() != 5 {
+        return Err(format!("{} PRF nodes after r, expected 5", later.len()));
+    }
+    let idx: Vec<Option<u64>> = later.iter().map(|&i| key_index(&n[i])).collect();
+    if idx != vec![Some(0), Some(0), Some(0), Some(0), Some(2)] {
+        return Err(format!("key indices of the PRF nodes after r are {:?}", idx));
+    }
+    // all five keys come from the same key triple
+    let triple = n[later[0]].get_node_dependencies()[0].get_node_dependencies()[0].get_id();
+    if later.iter().any(|&i| n[i].get_node_dependencies()[0].get_node_dependencies()[0].get_id() != triple) {
+        return Err("PRF keys after r come from different key tuples".into());
+    }
+    if r < 2 || !matches!(n[r - 1].get_operation(), Operation::TupleGet(2)) || !matches!(n[r - 2].get_operation(), Operation::TupleGet(1)) {
+        return Err("nodes before r are not tuple_get(1), tuple_get(2)".into());
+    }
+    let d = n[r - 1].get_node_dependencies()[0].get_id();
+    if n[r - 2].get_node_dependencies()[0].get_id() != d {
+        return Err("x1 and x2 come from different tuples".into());
+    }
+    let (y0, y2) = (later[3], later[4]);
+    let out = (y2 + 1..n.len()).find(|&i| {
+        matches!(n[i].get_operation(), Operation::CreateTuple) && {
+            let ds = n[i].get_node_dependencies();
+            ds.len() == 3 && ds[0].get_id() as usize == y0 && ds[2].get_id() as usize == y2
+        }
+    });
+    let o = match out {
+        Some(o) => o,
+        None => return Err("no CreateTuple(y0,_,y2) after y2".into()),
+    };
+    // messages: the NOP nodes annotated Send between r and the output tuple, with the protocol's
+    // sender/receiver pattern (:342 three times, :367, :369, :424, :428)
+    let mut msgs = vec![];
+    let mut pattern = vec![];
+    for i in r + 1..o {
+        if matches!(n[i].get_operation(), Operation::NOP) {
+            for a in n[i].get_annotations().map_err(|_| "annotations".to_string())? {
+                if let NodeAnnotation::Send(from, to) = a {
+                    msgs.push(i);
+                    pattern.push((from, to));
+                }
+            }
+        }
+    }
+    if pattern != vec![(2, 1), (2, 1), (2, 1), (0, 1), (1, 0), (0, 1), (1, 0)] {
+        return Err(format!("Send pattern between r and the output is {:?}", pattern));
+    }
+    Ok(Found2K { input_tuple: d as usize, masks: [r, later[0], later[1], later[2], later[3], later[4]], msgs, output: o })
+}
+
+struct FoundMpc {
+    input_tuple: usize,
+    r: usize,
+    output: usize,
+}
+fn find_mpc(run: &Run) -> std::result::Result<FoundMpc, String> {
+    let n = &run.nodes;
+    let r = match (0..n.len()).rev().find(|&i| is_prf(&n[i])) {
+        Some(r) => r,
+        None => return Err("no PRF node".into()),
+    };
+    if key_index(&n[r]) != Some(2) {
+        return Err(format!("key index of the last PRF is {:?}, expected 2", key_index(&n[r])));
+    }
+    if r + 1 >= n.len() || !matches!(n[r + 1].get_operation(), Operation::TupleGet(0)) {
+        return Err("node after r is not tuple_get(0)".into());
+    }
+    let d = n[r + 1].get_node_dependencies()[0].get_id() as usize;
+    let out = (r + 1..n.len()).find(|&i| {
+        matches!(n[i].get_operation(), Operation::CreateTuple) && {
+            let ds = n[i].get_node_dependencies();
+            ds.len() == 3 && ds[2].get_id() as usize == r
+        }
+    });
+    match out {
+        Some(o) => Ok(FoundMpc { input_tuple: d, r, output: o }),
+        None => Err("no CreateTuple(_,_,r) after r".into()),
+    }
+}
+
+fn triple_elems(v: &Value, t: &Type) -> Result<Vec<Vec<u128>>> {
+    let vs = v.to_vector()?;
+    if vs.len() != 3 {
+        panic!("not a triple");
+    }
+    vs.iter().map(|s| elems(s, t)).collect()
+}
+
+fn floor_div_pow2(x: i128, k: u32) -> i128 {
+    x >> k // arithmetic shift = floor division by 2^k
+}
+
+/// values for the element positions: boundary-heavy, inside the documented range unless `wild`
+fn gen_x(w: u32, signed: bool, k_or_scale: u128, wild: bool, rng: &mut Rng) -> u128 {
+    let m = mask(w);
+    let q = 1u128 << (w - 2); // modulus / 4
+    let s = k_or_scale;
+    if wild {
+        return rng.u128() & m;
+    }
+    let pick = rng.below(12);
+    let v: i128 = if signed {
+        match pick {
+            0 => 0,
+            1 => 1,
+            2 => -1,
+            3 => (q - 1) as i128,
+            4 => -(q as i128),
+            5 => -(q as i128) + 1,
+            6 => ((rng.u128() % q) / s.max(1) * s.max(1)) as i128, // exact multiple
+            7 => -(((rng.u128() % q) / s.max(1) * s.max(1)) as i128),
+            8 => (s.min(q - 1)) as i128 - 1,
+            9 => -((s.min(q)) as i128),
+            10 => (rng.u128() % 1000) as i128 - 500,
+            _ => (rng.u128() % (2 * q)) as i128 - q as i128,
+        }
+    } else {
+        let h = 2 * q; // modulus / 2
+        (match pick {
+            0 => 0,
+            1 => 1,
+            2 => 2,
+            3 => h - 1,
+            4 => h - 2,
+            5 => q,
+            6 | 7 => (rng.u128() % h) / s.max(1) * s.max(1),
+            8 => s.min(h) - 1,
+            9 => s.min(h - 1),
+            10 => rng.u128() % 1000 % h,
+            _ => rng.u128() % h,
+        }) as i128
+    };
+    (v as u128) & m
+}
+
+fn seed16(rng: &mut Rng) -> [u8; 16] {
+    let a = rng.u128();
+    a.to_le_bytes()
+}
+
+const OWNERS: [IOStatus; 5] = [IOStatus::Shared, IOStatus::Party(0), IOStatus::Party(1), IOStatus::Party(2), IOStatus::Public];
+fn out_sets() -> Vec<Vec<IOStatus>> {
+    vec![
+        vec![],
+        vec![IOStatus::Party(0)],
+        vec![IOStatus::Party(1)],
+        vec![IOStatus::Party(2)],
+        vec![IOStatus::Party(0), IOStatus::Party(1)],
+        vec![IOStatus::Party(2), IOStatus::Party(0)],
+        vec![IOStatus::Party(1), IOStatus::Party(2)],
+        vec![IOStatus::Party(0), IOStatus::Party(1), IOStatus::Party(2)],
+    ]
+}
+fn shape_pool() -> Vec<Option<Vec<u64>>> {
+    vec![None, Some(vec![1]), Some(vec![3]), Some(vec![2, 2]), Some(vec![2, 1, 2])]
+}
+fn mk_type(shape: &Option<Vec<u64>>, st: ScalarType) -> Type {
+    match shape {
+        None => scalar_type(st),
+        Some(s) => array_type(s.clone(), st),
+    }
+}
+fn n_elems(shape: &Option<Vec<u64>>) -> usize {
+    match shape {
+        None => 1,
+        Some(s) => s.iter().product::<u64>() as usize,
+    }
+}
+
+fn zt(xs: &[u128]) -> String {
+    format!("({})", xs.iter().map(|x| z_u128(*x)).collect::<Vec<_>>().join(", "))
+}
+
+/// One compiled configuration, `reps` evaluations.
+#[allow(clippy::too_many_arguments)]
+fn run_config(st: ScalarType, shape: &Option<Vec<u64>>, scale: u128, owner: &IOStatus, outs: &[IOStatus], reps: usize, wild_every: usize, rng: &mut Rng, out: &mut Out) {
+    let w = width(st);
+    let signed = st.is_signed();
+    let sgc = if signed { "true" } else { "false" };
+    let t = mk_type(shape, st);
+    let n = n_elems(shape);
+    let pow2 = scale.is_power_of_two();
+    let k = scale.trailing_zeros();
+    let cfg_json = json!({"st": scalar(st), "shape": format!("{:?}", shape), "scale": scale.to_string(), "owner": owner_name(owner),
+                          "outs": outs.iter().map(owner_name).collect::<Vec<_>>()});
+    let ctx = {
+        let (t, owner, outs) = (t.clone(), owner.clone(), outs.to_vec());
+        observe_u(move || compile(&t, scale, &owner, &outs))
+    };
+    out.stat(&format!("compile:{}", ctx.tag()));
+    let ctx = match ctx {
+        Outcome::Ok(c) => c,
+        other => {
+            // documented: TruncateMPC supports signed types only (mpc_truncate.rs:84); everything else must compile
+            // (also for a public input: the one-argument form checks signedness first, :37-41)
+            let legit = !pow2 && !signed;
+            if legit && matches!(other, Outcome::Err) {
+                out.stat(&format!("compile:unsigned-general-rejected:{}", if *owner == IOStatus::Public { "public" } else { "private" }));
+                out.oracle_ok();
+                if *owner == IOStatus::Public {
+                    let xs: Vec<u128> = (0..n).map(|_| gen_x(w, signed, scale, false, rng)).collect();
+                    out.case("trunc_public", format!("mapM (trunc_public {} {} {}) {}", w, sgc, scale, list_u128(&xs)), "Err".into(), cfg_json, true);
+                }
+            } else {
+                out.violation("compile-fails", cfg_json, format!("prepare_for_mpc_evaluation: {}", other.tag()));
+            }
+            return;
+        }
+    };
+    out.stat(&format!("st:{}", scalar(st)));
+    out.stat(&format!("owner:{}", owner_name(owner)));
+    out.stat(&format!("outs:{}", outs.len()));
+    out.stat(&format!("shape:{}", match shape { None => "scalar".to_string(), Some(s) => format!("{:?}", s) }));
+    out.stat(if pow2 { "proto:2k" } else { "proto:general" });
+    for rep in 0..reps {
+        let wild = wild_every > 0 && rep % wild_every == wild_every - 1;
+        let xs: Vec<u128> = (0..n).map(|_| gen_x(w, signed, scale, wild, rng)).collect();
+        // inputs
+        let inputs: Vec<Value> = match owner {
+            IOStatus::Shared => {
+                let mut sh: Vec<Vec<u128>> = vec![vec![], vec![], vec![]];
+                for &x in &xs {
+                    let (a, b) = match rng.below(5) {
+                        0 => (0, 0),
+                        1 => (x, 0),
+                        2 => (mask(w), mask(w)),
+                        _ => (rng.u128() & mask(w), rng.u128() & mask(w)),
+                    };
+                    let c = x.wrapping_sub(a).wrapping_sub(b) & mask(w);
+                    sh[0].push(a);
+                    sh[1].push(b);
+                    sh[2].push(c);
+                }
+                vec![Value::from_vector(sh.iter().map(|s| value_of(s, &t).unwrap()).collect())]
+            }
+            _ => vec![value_of(&xs, &t).unwrap()],
+        };
+        let seed = seed16(rng);
+        let run = {
+            let (ctx, inputs) = (ctx.clone(), inputs.clone());
+            observe_u(move || eval_all(&ctx, inputs, seed))
+        };
+        let input_json = json!({"cfg": cfg_json, "xs": xs.iter().map(|x| x.to_string()).collect::<Vec<_>>(), "seed": format!("{:?}", seed)});
+        let run = match run {
+            Outcome::Ok(r) => r,
+            other => {
+                out.violation("evaluation-fails", input_json, format!("node-by-node evaluation: {}", other.tag()));
+                continue;
+            }
+        };
+        let outv = run.vals[run.nodes.iter().position(|nd| nd.get_id() == ctx.get_main_graph().unwrap().get_output_node().unwrap().get_id()).unwrap()].clone();
+        let nontrivial = xs.iter().any(|x| x % scale != 0) && *owner != IOStatus::Public;
+        // ---------------------------------------------------------------- public input: exact
+        if *owner == IOStatus::Public {
+            // public input: the compiled graph is a plain Truncate; if nobody is an output party the public
+            // result is shared by party 0 (mpc_compiler.rs:1031), so sum the triple
+            let res: Vec<u128> = if outs.is_empty() {
+                let tr = triple_elems(&outv, &t).unwrap();
+                (0..n).map(|i| tr[0][i].wrapping_add(tr[1][i]).wrapping_add(tr[2][i]) & mask(w)).collect()
+            } else {
+                elems(&outv, &t).unwrap()
+            };
+            let lhs = format!("mapM (trunc_public {} {} {}) {}", w, sgc, scale, list_u128(&xs));
+            out.case("trunc_public", lhs, format!("(Ok {})", list_u128(&res)), input_json.clone(), xs.iter().any(|x| x % scale != 0));
+            for i in 0..n {
+                let exp = if signed {
+                    // w = 128 signed: i128 reading
+                    (sval(w, true, xs[i]) / (scale as i128)) as u128 & mask(w)
+                } else {
+                    xs[i] / scale
+                };
+                if res[i] != exp {
+                    out.violation("public-not-exact", input_json.clone(), format!("element {}: got {}, expected {}", i, res[i], exp));
+                } else {
+                    out.oracle_ok();
+                }
+            }
+            continue;
+        }
+        // ---------------------------------------------------------------- private input
+        let revealed: Vec<u128> = if outs.is_empty() {
+            let tr = triple_elems(&outv, &t).unwrap();
+            (0..n).map(|i| tr[0][i].wrapping_add(tr[1][i]).wrapping_add(tr[2][i]) & mask(w)).collect()
+        } else {
+            elems(&outv, &t).unwrap()
+        };
+        if pow2 && scale > 1 {
+            let f = match find_2k(&run) {
+                Ok(f) => f,
+                Err(e) => {
+                    out.violation("structure-2k", input_json.clone(), e);
+                    continue;
+                }
+            };
+            let xin = triple_elems(&run.vals[f.input_tuple], &t).unwrap();
+            let ms: Vec<Vec<u128>> = f.masks.iter().map(|&i| elems(&run.vals[i], &t).unwrap()).collect();
+            let ys = triple_elems(&run.vals[f.output], &t).unwrap();
+            let mut items = vec![];
+            let mut obs = vec![];
+            for i in 0..n {
+                items.push(format!("({}, {})", zt(&[xin[0][i], xin[1][i], xin[2][i]]), zt(&[ms[0][i], ms[1][i], ms[2][i], ms[3][i], ms[4][i], ms[5][i]])));
+                obs.push(zt(&[ys[0][i], ys[1][i], ys[2][i]]));
+            }
+            out.case("trunc2k_shares", format!("trunc2k_list {} {} {} [{}]", w, sgc, k, items.join("; ")), format!("[{}]", obs.join("; ")), input_json.clone(), nontrivial);
+            // the seven messages of the protocol (they, unlike the output shares, depend on r0, r_msb0, r_truncated0)
+            let mv: Vec<Vec<u128>> = f.msgs.iter().map(|&i| elems(&run.vals[i], &t).unwrap()).collect();
+            let mobs: Vec<String> = (0..n).map(|i| list_u128(&mv.iter().map(|m| m[i]).collect::<Vec<_>>())).collect();
+            out.case("trunc2k_msgs", format!("trunc2k_msgs_list {} {} {} [{}]", w, sgc, k, items.join("; ")), format!("[{}]", mobs.join("; ")), input_json.clone(), nontrivial);
+            // the revealed output is the sum of the protocol's output shares
+            let sums: Vec<u128> = (0..n).map(|i| ys[0][i].wrapping_add(ys[1][i]).wrapping_add(ys[2][i]) & mask(w)).collect();
+            out.case("reveal", format!("map (reveal {}) [{}]", w, obs.join("; ")), list_u128(&revealed), input_json.clone(), nontrivial);
+            for i in 0..n {
+                // the shares really are a sharing of the input
+                let xsum = xin[0][i].wrapping_add(xin[1][i]).wrapping_add(xin[2][i]) & mask(w);
+                if xsum != xs[i] {
+                    out.violation("structure-2k-input-shares", input_json.clone(), format!("element {}: shares sum to {}, input {}", i, xsum, xs[i]));
+                    continue;
+                }
+                if sums[i] != revealed[i] {
+                    out.violation("reveal-differs-from-share-sum", input_json.clone(), format!("element {}", i));
+                    continue;
+                }
+                // native oracle: the property itself, for inputs in the documented range
+                let in_range = if signed {
+                    let v = sval(w, true, xs[i]);
+                    v >= -(1i128 << (w - 2)) && v < (1i128 << (w - 2))
+                } else {
+                    xs[i] < (1u128 << (w - 1))
+                };
+                out.stat(if in_range { "x:in-range" } else { "x:out-of-range(tie only)" });
+                if !in_range {
+                    continue;
+                }
+                // in range: |values| < 2^127, so i128 arithmetic is exact
+                let xv = sval(w, signed, xs[i]);
+                let fl = floor_div_pow2(xv, k);
+                let got = sval(w, signed, revealed[i]);
+                let d = got.wrapping_sub(fl);
+                if d != 0 && d != 1 {
+                    out.violation("trunc2k-error-not-0-or-1", input_json.clone(), format!("element {}: x={} k={} result={} floor={}", i, xv, k, got, fl));
+                } else {
+                    out.oracle_ok();
+                    out.stat(if d == 0 { "2k:exact" } else { "2k:plus-one" });
+                }
+                // sharper form (C05_trunc2k_exact_iff): +1 exactly when (x mod 2^k) + (r mod 2^k) >= 2^k
+                let pm = (1u128 << k) - 1;
+                let carry = (xs[i] & pm) + (ms[0][i] & pm) > pm;
+                if (d == 1) != carry {
+                    out.violation("trunc2k-carry-rule", input_json.clone(), format!("element {}: x={} r={} k={} diff={}", i, xv, ms[0][i], k, d));
+                } else {
+                    out.oracle_ok();
+                }
+            }
+        } else if scale > 1 {
+            let f = match find_mpc(&run) {
+                Ok(f) => f,
+                Err(e) => {
+                    out.violation("structure-general", input_json.clone(), e);
+                    continue;
+                }
+            };
+            let xin = triple_elems(&run.vals[f.input_tuple], &t).unwrap();
+            let rv = elems(&run.vals[f.r], &t).unwrap();
+            let ys = triple_elems(&run.vals[f.output], &t).unwrap();
+            let mut items = vec![];
+            let mut obs = vec![];
+            for i in 0..n {
+                items.push(format!("({}, {})", zt(&[xin[0][i], xin[1][i], xin[2][i]]), z_u128(rv[i])));
+                obs.push(zt(&[ys[0][i], ys[1][i], ys[2][i]]));
+            }
+            out.case("truncmpc_shares", format!("truncmpc_list {} {} [{}]", w, scale, items.join("; ")), format!("[{}]", obs.join("; ")), input_json.clone(), nontrivial);
+            out.case("reveal", format!("map (reveal {}) [{}]", w, obs.join("; ")), list_u128(&revealed), input_json.clone(), nontrivial);
+            for i in 0..n {
+                let xsum = xin[0][i].wrapping_add(xin[1][i]).wrapping_add(xin[2][i]) & mask(w);
+                if xsum != xs[i] {
+                    out.violation("structure-general-input-shares", input_json.clone(), format!("element {}: shares sum to {}, input {}", i, xsum, xs[i]));
+                    continue;
+                }
+                // native oracle: unless the documented wrap-around happened, |result - quot| <= 1.
+                // wrap: sval x0 + sval (x1+x2) differs from sval x (by +-2^w)
+                let a = sval(w, true, xin[0][i]);
+                let b = sval(w, true, xin[1][i].wrapping_add(xin[2][i]));
+                let xv = sval(w, true, xs[i]);
+                let wrap = match a.checked_add(b) {
+                    Some(s) => s != xv,
+                    None => true,
+                };
+                out.stat(if wrap { "general:wrap" } else { "general:no-wrap" });
+                if wrap {
+                    continue;
+                }
+                let q = xv / (scale as i128);
+                let got = sval(w, true, revealed[i]);
+                let d = got.wrapping_sub(q);
+                if !(-1..=1).contains(&d) {
+                    out.violation("truncmpc-error-above-1", input_json.clone(), format!("element {}: x={} scale={} result={} quot={}", i, xv, scale, got, q));
+                } else {
+                    out.oracle_ok();
+                    out.stat(&format!("general:diff{}", d));
+                }
+            }
+        } else {
+            // scale = 1: both protocols return their input (mpc_truncate.rs:97, :275)
+            out.case("trunc_scale1", format!("mapM (trunc_public {} {} 1) {}", w, sgc, list_u128(&xs)), format!("(Ok {})", list_u128(&revealed)), input_json.clone(), false);
+            if revealed != xs {
+                out.violation("scale1-not-identity", input_json.clone(), "Truncate(1) changed a private value".into());
+            } else {
+                out.oracle_ok();
+            }
+        }
+    }
+}
+
+/// plaintext evaluator on Truncate directly (simple_evaluator.rs:962): all 11 types, any scale
+fn run_plain(rounds: usize, rng: &mut Rng, out: &mut Out) {
+    for round in 0..rounds {
+        for &st in ALL_ST.iter() {
+            let w = width(st);
+            let signed = st.is_signed();
+            let shape = if round % 2 == 0 { None } else { Some(vec![3u64]) };
+            let t = mk_type(&shape, st);
+            let n = n_elems(&shape);
+            let scale: u128 = match rng.below(8) {
+                0 => 1,
+                1 => 2,
+                2 => 3,
+                3 => 1u128 << rng.below(w as u64 + 2).min(126),
+                4 => (rng.u128() & mask(w)).max(1) & (i128::MAX as u128),
+                5 => (rng.u128() >> rng.below(127)).max(1) & (i128::MAX as u128),
+                6 => i128::MAX as u128,
+                _ => 1 + rng.below(1000) as u128,
+            };
+            let scale = scale.max(1);
+            let xs: Vec<u128> = (0..n).map(|_| if st == BIT { rng.below(2) as u128 } else { in_range_i128(st, rng).wrap128() & mask(w) }).collect();
+            let (t2, xs2) = (t.clone(), xs.clone());
+            let r = observe_u(move || {
+                let c = simple_context(|g| {
+                    let i = g.input(t2.clone())?;
+                    g.truncate(i, scale)
+                })?;
+                let run = eval_all(&c, vec![value_of(&xs2, &t2)?], [0u8; 16])?;
+                elems(run.vals.last().unwrap(), &t2)
+            });
+            out.stat(&format!("plain:{}", r.tag()));
+            let input = json!({"st": scalar(st), "scale": scale.to_string(), "xs": xs.iter().map(|x| x.to_string()).collect::<Vec<_>>()});
+            out.case("truncate_plain", format!("map (truncate {} {} {}) {}", w, if signed { "true" } else { "false" }, scale, list_u128(&xs)),
+                match &r { Outcome::Ok(v) => list_u128(v), _ => "[]".into() }, input.clone(), xs.iter().any(|x| x % scale != 0));
+            match r {
+                Outcome::Ok(v) => {
+                    for i in 0..n {
+                        let exp = if signed { (sval(w, true, xs[i]) / (scale as i128)) as u128 & mask(w) } else { xs[i] / scale };
+                        if v[i] != exp { out.violation("plain-truncate-wrong", input.clone(), format!("element {}: got {}, expected {}", i, v[i], exp)); } else { out.oracle_ok(); }
+                    }
+                }
+                _ => out.violation("plain-truncate-fails", input, "evaluation of a well-typed Truncate failed".into()),
+            }
+        }
+    }
+}
+
+fn ks_for(w: u32, signed: bool, all: bool) -> Vec<u32> {
+    let kmax = if signed { w - 2 } else { w - 1 }; // admissible range of the code: see Model/Trunc.v trunc2k_admissible
+    if all {
+        (1..=kmax).collect()
+    } else {
+        let mut v = vec![1, 2, w / 2, w - 3, w - 2, kmax];
+        v.sort_unstable();
+        v.dedup();
+        v.retain(|&k| k >= 1 && k <= kmax);
+        v
+    }
+}
+
+fn general_scales(w: u32, rng: &mut Rng, count: usize) -> Vec<u128> {
+    let mut v: Vec<u128> = vec![3, 5, 10, 15, 1000, (1u128 << (w / 2)) - 1, (1u128 << (w - 2)) + 1, (1u128 << (w - 1)) - 1];
+    // scales may exceed the type's modulus (type inference only bounds them by i128::MAX)
+    v.push((1u128 << w.min(126)) + 1);
+    while v.len() < count + 9 {
+        let s = (rng.u128() >> rng.below(127)) & (i128::MAX as u128);
+        v.push(s);
+    }
+    v.retain(|s| *s > 1 && !s.is_power_of_two() && *s <= i128::MAX as u128);
+    rng.shuffle(&mut v);
+    v.truncate(count);
+    v
+}
+
+pub fn run(tier: &str, seed: u64, out: &mut Out) {
+    let mut rng = Rng::new(seed ^ 0xC05);
+    let thorough = tier == "thorough" || tier == "search";
+    let outsets = out_sets();
+    let shapes = shape_pool();
+    if std::env::var("C05_DUMP").is_ok() {
+        dump();
+    }
+    // ---- TruncateMPC2K: every integer type x k (quick: a spread, thorough: all admissible k)
+    let mut cfg_no = 0usize;
+    for &st in INT_ST.iter() {
+        let w = width(st);
+        for k in ks_for(w, st.is_signed(), thorough) {
+            // coverage of k made visible: every k individually in the quick tier, a count per type otherwise
+            if thorough { out.stat(&format!("k-values-covered:{}", scalar(st))); } else { out.stat(&format!("k:{}:{}", scalar(st), k)); }
+            let nconf = if thorough { 3 } else { 2 };
+            for _ in 0..nconf {
+                // owners and output sets rotate so that all 4 private owners x 8 output sets are covered
+                let owner = OWNERS[cfg_no % 4].clone();
+                let outs = outsets[(cfg_no / 4 + cfg_no) % 8].clone();
+                let shape = shapes[(cfg_no / 3) % shapes.len()].clone();
+                cfg_no += 1;
+                let reps = if n_elems(&shape) == 1 { 6 } else { 3 };
+                run_config(st, &shape, 1u128 << k, &owner, &outs, reps, 3, &mut rng, out);
+            }
+        }
+    }
+    // ---- TruncateMPC: signed types x non-power-of-two scales (and the documented rejection for unsigned)
+    for &st in INT_ST.iter() {
+        let w = width(st);
+        let count = if thorough { 24 } else { 5 };
+        for scale in general_scales(w, &mut rng, if st.is_signed() { count } else { 1 }) {
+            let owner = OWNERS[cfg_no % 4].clone();
+            let outs = outsets[(cfg_no / 4 + cfg_no) % 8].clone();
+            let shape = shapes[(cfg_no / 3) % shapes.len()].clone();
+            cfg_no += 1;
+            let reps = if n_elems(&shape) == 1 { 6 } else { 3 };
+            run_config(st, &shape, scale, &owner, &outs, reps, 3, &mut rng, out);
+        }
+    }
+    // ---- public inputs and scale 1
+    for &st in INT_ST.iter() {
+        let w = width(st);
+        let mut scales: Vec<u128> = vec![1, 2, 3, 1u128 << (w - 2), 1u128 << (w - 1), 7, 1000];
+        if thorough {
+            scales.extend(general_scales(w, &mut rng, 6));
+            scales.extend(ks_for(w, false, false).iter().map(|k| 1u128 << k));
+        }
+        for scale in scales {
+            if st.is_signed() && scale > i128::MAX as u128 {
+                continue;
+            }
+            let outs = outsets[cfg_no % 8].clone();
+            let shape = shapes[(cfg_no / 3) % shapes.len()].clone();
+            cfg_no += 1;
+            run_config(st, &shape, scale, &IOStatus::Public, &outs, 3, 0, &mut rng, out);
+            if scale == 1 {
+                let owner = OWNERS[cfg_no % 4].clone();
+                run_config(st, &shape, 1, &owner, &outs, 2, 0, &mut rng, out);
+            }
+        }
+    }
+    // ---- plaintext evaluator
+    run_plain(if thorough { 40 } else { 6 }, &mut rng, out);
+    // ---- outside the admissible range of k: observed, reported as statistics only (not part of the property)
+    for &st in INT_ST.iter() {
+        let w = width(st);
+        for k in [w - 1, w] {
+            if k > 126 || (k == w - 1 && !st.is_signed()) {
+                continue;
+            }
+            let t = scalar_type(st);
+            let r = observe_u(move || compile(&t, 1u128 << k, &IOStatus::Shared, &[]));
+            out.stat(&format!("k-out-of-range:{}:k=w{}:{}", if st.is_signed() { "signed" } else { "unsigned" }, if k == w { "" } else { "-1" }, r.tag()));
+        }
+    }
+}
+
+fn dump() {
+    for (st, scale, owner) in [(INT8, 8u128, IOStatus::Party(1)), (UINT8, 8u128, IOStatus::Shared), (INT8, 5u128, IOStatus::Party(0))] {
+        let ctx = compile(&scalar_type(st), scale, &owner, &[IOStatus::Party(0)]).unwrap();
+        let g = ctx.get_main_graph().unwrap();
+        eprintln!("==== {} scale {} owner {}", scalar(st), scale, owner_name(&owner));
+        for n in g.get_nodes() {
+            eprintln!("{:3} {:?} deps {:?} annot {:?}", n.get_id(), n.get_operation(), n.get_node_dependencies().iter().map(|d| d.get_id()).collect::<Vec<_>>(), n.get_annotations().unwrap());
+        }
+    }
+}
